@@ -584,7 +584,6 @@ type c08EdgeResult struct {
 }
 
 func c08EdgeEval(r *Run, fn *ssa.Function, sp EdgeSpec) *c08EdgeResult {
-	res := &c08EdgeResult{rets: map[*ssa.Return]bool{}, nonOK: map[*ssa.Return]string{}, own: map[*ssa.Return]bool{}}
 	found := r.D.AtomsOf(fn)
 	var bound []string
 	flipped := map[string]bool{}
@@ -603,6 +602,14 @@ func c08EdgeEval(r *Run, fn *ssa.Function, sp EdgeSpec) *c08EdgeResult {
 			bound = append(bound, k)
 		}
 	}
+	return c08EdgeEvalBound(r, fn, sp, bound, flipped)
+}
+
+// c08EdgeEvalBound: the evaluation for atoms already bound — by the glob of sp.Atom (c08EdgeEval) or by a fact about
+// the values tested (c08NilTests: the absence tests of a part of the reply, however the part is read).
+func c08EdgeEvalBound(r *Run, fn *ssa.Function, sp EdgeSpec, bound []string, flipped map[string]bool) *c08EdgeResult {
+	res := &c08EdgeResult{rets: map[*ssa.Return]bool{}, nonOK: map[*ssa.Return]string{}, own: map[*ssa.Return]bool{}}
+	found := r.D.AtomsOf(fn)
 	if len(bound) == 0 {
 		return res
 	}
@@ -754,22 +761,21 @@ func c08EntryHandlers(r *Run, fns []*ssa.Function) int {
 }
 
 // c08DistinctOptionalParts counts the optional parts (message type, field) of backend messages that functions in
-// scope use — each part once, in however many functions it is used.
+// scope use in a way that needs them present (a field selection through the part, a callee that dereferences it) —
+// each part once, in however many functions it is used and whether it is read by field load or through an accessor.
 func c08DistinctOptionalParts(r *Run, scope func(fn *ssa.Function) bool, msgPkgGlob string) int {
 	e := newNilEngine(r)
 	parts := map[string]bool{}
 	add := func(v ssa.Value) {
-		fa, ok := optionalLoad(v)
+		x, fv, ok := e.optionalRead(v) // by field load or through a nil-safe accessor
 		if !ok {
 			return
 		}
-		nt, ok := fa.X.Type().Underlying().(*types.Pointer).Elem().(*types.Named)
-		if !ok || nt.Obj().Pkg() == nil || !glob(msgPkgGlob, nt.Obj().Pkg().Path()) {
+		nt := msgNamed(x.Type())
+		if nt == nil || nt.Obj().Pkg() == nil || !glob(msgPkgGlob, nt.Obj().Pkg().Path()) {
 			return
 		}
-		if fv := fieldOf(fa); fv != nil {
-			parts[nt.Obj().Name()+"."+fv.Name()] = true
-		}
+		parts[nt.Obj().Name()+"."+fv.Name()] = true
 	}
 	for _, fn := range r.P.ModFuncs {
 		if !scope(fn) || len(fn.Blocks) == 0 {
@@ -781,7 +787,7 @@ func c08DistinctOptionalParts(r *Run, scope func(fn *ssa.Function) bool, msgPkgG
 				add(x.X)
 			case ssa.CallInstruction:
 				for _, a := range x.Common().Args {
-					if _, ok := optionalLoad(a); !ok {
+					if _, _, ok := e.optionalRead(a); !ok {
 						continue
 					}
 					if b, _ := e.passesNilTo(x, a, 0); b {
